@@ -2,4 +2,359 @@ import SqliteDissect.Proofs.Codec
 import SqliteDissect.Spec.RecordFmt
 import SqliteDissect.Model.Page
 namespace SqliteDissect.Proofs.Record
+open SqliteDissect SqliteDissect.Model
+open SqliteDissect.Proofs.Codec
+
+/-! ### the three small properties -/
+
+theorem hdrSize_spec (n : Nat) (hn : n + 3 < 2 ^ 21) :
+    Spec.hdrSize n = n + Spec.varintLen (Spec.hdrSize n) := by
+  unfold Spec.hdrSize Spec.varintLen
+  simp only [Nat.reducePow] at hn ⊢
+  repeat' split
+  all_goals omega
+
+/-- the column the model reports for a stored column (same as `Properties.C01.expectedCol`) -/
+def expectedCol (c : Spec.Col) : RecordCol :=
+  ⟨c.st, Spec.varintLen (Spec.toU64 c.st), c.content.length, (Spec.serialGet c.st c.content).getD .null⟩
+
+theorem expectedCol_defined (c : Spec.Col) (hv : Spec.ValidCol c) :
+    ∃ v, Spec.serialGet c.st c.content = some v ∧
+      (⟨c.st, Spec.varintLen (Spec.toU64 c.st), c.content.length,
+        (Spec.serialGet c.st c.content).getD .null⟩ : RecordCol).value = v := by
+  obtain ⟨_, _, hl, _⟩ := hv
+  obtain ⟨v, hv⟩ := spec_serialGet_defined c.st c.content.length c.content hl rfl
+  exact ⟨v, hv, by rw [hv]; rfl⟩
+
+theorem record_signature (cols : List Spec.Col) (r : Record)
+    (h : r.cols = cols.map fun c => (⟨c.st, Spec.varintLen (Spec.toU64 c.st), c.content.length,
+        (Spec.serialGet c.st c.content).getD .null⟩ : RecordCol)) :
+    r.signature = String.join (cols.map fun c => toString (serialTypeSignature c.st)) := by
+  unfold Record.signature
+  rw [h, List.map_map]
+  rfl
+
+/-! ### buffers -/
+
+theorem rd_of_toList (b : Buf) (l : List Nat) (h : b.toList = l) (i : Nat) (hi : i < l.length) :
+    i < b.size ∧ b.rd i = l[i] := by
+  subst h
+  have hi' : i < b.size := by rw [toList_length] at hi; exact hi
+  exact ⟨hi', (toList_getElem b i hi).symm⟩
+
+theorem append_toList (a b : Buf) : (a.append b).toList = a.toList ++ b.toList := by
+  apply List.ext_getElem
+  · simp [Buf.toList, Buf.append]
+  · intro i h1 h2
+    simp only [Buf.toList, Buf.append, List.getElem_map, List.getElem_range, List.getElem_append,
+      List.length_map, List.length_range]
+    split <;> rfl
+
+theorem slice_toList' (b : Buf) (lo hi : Nat) (h1 : lo ≤ hi) (h2 : hi ≤ b.size) :
+    (b.slice lo hi).toList = (b.toList.drop lo).take (hi - lo) := by
+  have := slice_toList b lo (hi - lo) (by omega)
+  rw [show lo + (hi - lo) = hi by omega] at this
+  rw [this, content_eq b lo (hi - lo) (by omega)]
+
+theorem pySlice_nat (b : Buf) (lo hi : Nat) (h2 : hi ≤ b.size) (h1 : lo ≤ hi) :
+    pySlice b (lo : Int) (hi : Int) = b.slice lo hi := by
+  unfold pySlice
+  have a1 : ¬ ((lo : Int) < 0) := by omega
+  have a2 : ¬ ((hi : Int) < 0) := by omega
+  have a3 : ¬ ((lo : Int) > (b.size : Int)) := by omega
+  have a4 : ¬ ((hi : Int) > (b.size : Int)) := by omega
+  simp only [a1, a2, a3, a4, if_false, Int.toNat_natCast]
+
+theorem pySlice_toList (b : Buf) (lo hi : Nat) (h1 : lo ≤ hi) (h2 : hi ≤ b.size) :
+    (pySlice b (lo : Int) (hi : Int)).toList = (b.toList.drop lo).take (hi - lo) := by
+  rw [pySlice_nat b lo hi h2 h1, slice_toList' b lo hi h1 h2]
+
+/-! ### decode_varint reads only the bytes of the varint -/
+
+theorem dvLoop_count (b : Buf) (off : Nat) : ∀ (n v rel : Nat) (r : Nat × Nat),
+    dvLoop b off n v rel = .ok r → rel ≤ r.2 ∧ (0 < n → rel < r.2) := by
+  intro n
+  induction n with
+  | zero =>
+    intro v rel r h
+    simp only [dvLoop, Except.ok.injEq] at h
+    subst h; simp
+  | succ n ih =>
+    intro v rel r h
+    unfold dvLoop at h
+    by_cases hlt : off + rel < b.size
+    · simp only [hlt, if_true] at h
+      by_cases hn : n = 0
+      · simp only [hn, if_true, Except.ok.injEq] at h
+        subst h; simp
+      · simp only [hn, if_false] at h
+        by_cases hz : b.rd (off + rel) &&& 0x80 = 0
+        · simp only [hz, if_true, Except.ok.injEq] at h
+          subst h; simp
+        · simp only [hz, if_false] at h
+          have := ih _ _ _ h
+          omega
+    · simp only [hlt, if_false] at h
+      cases h
+
+theorem dvLoop_transfer (b1 b2 : Buf) (off1 off2 : Nat) : ∀ (n v rel : Nat) (r : Nat × Nat),
+    dvLoop b1 off1 n v rel = .ok r →
+    (∀ i, i < r.2 → off2 + i < b2.size ∧ b2.rd (off2 + i) = b1.rd (off1 + i)) →
+    dvLoop b2 off2 n v rel = .ok r := by
+  intro n
+  induction n with
+  | zero =>
+    intro v rel r h _
+    simpa only [dvLoop] using h
+  | succ n ih =>
+    intro v rel r h hag
+    have hc := (dvLoop_count b1 off1 _ _ _ _ h).2 (Nat.succ_pos _)
+    obtain ⟨hs, hr⟩ := hag rel hc
+    unfold dvLoop at h ⊢
+    by_cases hlt : off1 + rel < b1.size
+    · simp only [hlt, if_true] at h
+      simp only [hs, if_true, hr]
+      by_cases hn : n = 0
+      · simpa only [hn, if_true] using h
+      · simp only [hn, if_false] at h ⊢
+        by_cases hz : b1.rd (off1 + rel) &&& 0x80 = 0
+        · simpa only [hz, if_true] using h
+        · simp only [hz, if_false] at h ⊢
+          exact ih _ _ _ h hag
+    · simp only [hlt, if_false] at h
+      cases h
+
+/-- a canonical varint anywhere in a buffer decodes to its value, whatever surrounds it
+(no well-formedness of the surrounding bytes is needed) -/
+theorem decodeVarint_at (b : Buf) (p q : List Nat) (u : Nat) (hu : u < 2 ^ 64)
+    (h : b.toList = p ++ Spec.putVarint u ++ q) :
+    decodeVarint b p.length = .ok (Spec.toI64 u, Spec.varintLen u) := by
+  have hwf : (Buf.ofList (Spec.putVarint u)).WF := ofList_WF _ (spec_put_bytes' u)
+  have h1 := dvLoop_spec (Buf.ofList (Spec.putVarint u)) hwf 0 9 0 0 (by omega) (by omega)
+  have hg := spec_get_put u hu []
+  rw [List.append_nil] at hg
+  simp only [Nat.zero_mul, Nat.add_zero, ofList_toList, List.drop_zero] at h1
+  unfold Spec.getVarint at hg
+  rw [hg, spec_put_length] at h1
+  have h2 := dvLoop_transfer _ b 0 p.length 9 0 0 _ h1 (by
+    intro i hi
+    simp only at hi
+    have hi' : i < (Spec.putVarint u).length := by rw [spec_put_length]; exact hi
+    have hlen : p.length + i < (p ++ Spec.putVarint u ++ q).length := by
+      simp only [List.length_append]; omega
+    obtain ⟨a, e⟩ := rd_of_toList b _ h (p.length + i) hlen
+    refine ⟨a, ?_⟩
+    rw [e, Nat.zero_add, ofList_rd _ i hi']
+    simp only [List.append_assoc, List.getElem_append_right (Nat.le_add_right p.length i),
+      Nat.add_sub_cancel_left, List.getElem_append_left hi'])
+  unfold decodeVarint
+  rw [h2]
+  simp only
+  rw [← toI64_of_sign u hu]
+  split <;> rfl
+
+/-! ### the column loop -/
+
+theorem typeBytes_cons (c : Spec.Col) (rest : List Spec.Col) :
+    Spec.typeBytes (c :: rest) = Spec.putVarint (Spec.toU64 c.st) ++ Spec.typeBytes rest := by
+  simp only [Spec.typeBytes, List.flatMap_cons]
+
+theorem typeBytes_length_ge (cols : List Spec.Col) : cols.length ≤ (Spec.typeBytes cols).length := by
+  induction cols with
+  | nil => simp [Spec.typeBytes]
+  | cons c rest ih =>
+    rw [typeBytes_cons, List.length_append, spec_put_length, List.length_cons]
+    have := varintLen_pos (Spec.toU64 c.st)
+    omega
+
+theorem decodeVarintI_nat (b : Buf) (n : Nat) : decodeVarintI b (n : Int) = decodeVarint b n := by
+  unfold decodeVarintI
+  rw [if_pos (by omega), Int.toNat_natCast]
+
+/-- invariant of the `while current_header_offset < header_byte_size` loop: `hp` = header bytes
+consumed so far, `bp` = body bytes consumed so far, `rest` = columns still to read -/
+theorem recordCols_spec (total : Buf) (hsN szN : Nat) (hq : List Nat) :
+    ∀ (rest : List Spec.Col) (hp bp : List Nat) (fuel : Nat) (acc : List RecordCol),
+    (∀ c ∈ rest, Spec.ValidCol c) →
+    total.toList = hp ++ Spec.typeBytes rest ++ hq →
+    hp.length + (Spec.typeBytes rest).length = hsN →
+    (pySlice total (hsN : Int) (szN : Int)).WF →
+    (pySlice total (hsN : Int) (szN : Int)).toList = bp ++ rest.flatMap (·.content) →
+    rest.length ≤ fuel →
+    recordCols total (hsN : Int) (szN : Int) fuel (hp.length : Int) bp.length acc
+      = .ok (acc.reverse ++ rest.map expectedCol) := by
+  intro rest
+  induction rest with
+  | nil =>
+    intro hp bp fuel acc _ _ hlen _ _ _
+    simp only [Spec.typeBytes, List.flatMap_nil, List.length_nil, Nat.add_zero] at hlen
+    have hnlt : ¬ ((hp.length : Int) < (hsN : Int)) := by omega
+    cases fuel <;> simp [recordCols, hnlt]
+  | cons c rest ih =>
+    intro hp bp fuel acc hv htot hlen hwf hbody hfuel
+    obtain ⟨h0, h63, hstl, _⟩ := hv c (List.mem_cons_self ..)
+    have hvrest : ∀ c ∈ rest, Spec.ValidCol c := fun x hx => hv x (List.mem_cons_of_mem _ hx)
+    obtain ⟨f, rfl⟩ : ∃ f, fuel = f + 1 := ⟨fuel - 1, by simp only [List.length_cons] at hfuel; omega⟩
+    rw [typeBytes_cons] at htot hlen
+    generalize hP : Spec.putVarint (Spec.toU64 c.st) = P at htot hlen
+    have hPlen : P.length = Spec.varintLen (Spec.toU64 c.st) := by rw [← hP, spec_put_length]
+    have hpos := varintLen_pos (Spec.toU64 c.st)
+    rw [List.length_append] at hlen
+    have hlt : (hp.length : Int) < (hsN : Int) := by omega
+    -- the serial type varint
+    have hdec : decodeVarintI total (hp.length : Int)
+        = .ok (c.st, Spec.varintLen (Spec.toU64 c.st)) := by
+      rw [decodeVarintI_nat,
+        decodeVarint_at total hp (Spec.typeBytes rest ++ hq) (Spec.toU64 c.st) (toU64_lt _)
+          (by rw [htot, hP, List.append_assoc, List.append_assoc, List.append_assoc]),
+        toI64_toU64 c.st (by omega) h63]
+    -- the content
+    rw [List.flatMap_cons] at hbody
+    have hsize : (pySlice total (hsN : Int) (szN : Int)).size
+        = bp.length + c.content.length + (rest.flatMap (·.content)).length := by
+      rw [← toList_length, hbody]; simp only [List.length_append]; omega
+    have hcut : ((pySlice total (hsN : Int) (szN : Int)).toList.drop bp.length).take c.content.length
+        = c.content := by
+      rw [hbody, List.drop_left, List.take_left]
+    obtain ⟨v, hval⟩ := spec_serialGet_defined c.st c.content.length c.content hstl rfl
+    have hcont : getRecordContent c.st (pySlice total (hsN : Int) (szN : Int)) bp.length
+        = .ok (c.content.length, v) := by
+      rw [record_content_eq_spec c.st _ hwf bp.length c.content.length hstl (by omega), hcut, hval]
+    have hnext := ih (hp ++ P) (bp ++ c.content) f
+      (⟨c.st, Spec.varintLen (Spec.toU64 c.st), c.content.length, v⟩ :: acc) hvrest
+      (by rw [htot]; simp only [List.append_assoc])
+      (by rw [List.length_append]; omega) hwf
+      (by rw [hbody]; simp only [List.append_assoc])
+      (by simp only [List.length_cons] at hfuel; omega)
+    rw [List.length_append, List.length_append, hPlen, Int.natCast_add] at hnext
+    rw [recordCols]
+    simp only [hlt, if_true, hdec, hcont, bind, Except.bind]
+    rw [hnext]
+    simp only [List.reverse_cons, List.append_assoc, List.map_cons, List.singleton_append,
+      expectedCol, hval, Option.getD_some]
+
+/-! ### `Record.__init__` -/
+
+theorem WF_of_toList (b : Buf) (h : ∀ x ∈ b.toList, x < 256) : b.WF := by
+  intro i hi
+  have hi' : i < b.toList.length := by rw [toList_length]; exact hi
+  have := h _ (List.getElem_mem hi')
+  rwa [toList_getElem] at this
+
+/-- the straight-line part of `parseRecord`, given what the two sub-computations return -/
+theorem parseRecord_ok (page overflow : Buf) (off sz bf : Nat) (hs : Int) (hl : Nat)
+    (cs : List RecordCol)
+    (hle : bf ≤ sz) (hov : overflow.size = sz - bf)
+    (hdec : decodeVarintI page (off : Int) = .ok (hs, hl))
+    (hsize : ((pySlice page (off : Int) ((off : Int) + (bf : Int))).append overflow).size = sz)
+    (hcols : recordCols ((pySlice page (off : Int) ((off : Int) + (bf : Int))).append overflow)
+        hs (sz : Int) (sz + 1) (hl : Int) 0 [] = .ok cs) :
+    parseRecord page (off : Int) (sz : Int) (bf : Int) overflow
+      = .ok ⟨hs, hl, cs, ((pySlice page (off : Int) ((off : Int) + (bf : Int))).append overflow).toList⟩ := by
+  unfold parseRecord
+  have c1 : ¬ ((bf : Int) < (sz : Int) ∧ ¬ (decide (overflow.size ≠ 0) = true)) := by
+    simp only [decide_eq_true_eq, hov]; omega
+  have c2 : ¬ ((bf : Int) > (sz : Int)) := by omega
+  have c3 : ¬ ((sz : Int) - (bf : Int) = 0 ∧ decide (overflow.size ≠ 0) = true) := by
+    simp only [decide_eq_true_eq, hov]; omega
+  have c4 : ¬ ((((pySlice page (off : Int) ((off : Int) + (bf : Int))).append overflow).size : Int)
+      ≠ (sz : Int)) := by rw [hsize]; simp
+  simp only [c1, c2, c3, if_false, hdec, bind, Except.bind, hsize, hcols, pure, Except.pure,
+    ne_eq, not_true_eq_false]
+
+theorem encodeRecord_length (cols : List Spec.Col) :
+    (Spec.encodeRecord cols).length =
+      Spec.varintLen (Spec.hdrSize (Spec.typeBytes cols).length) + (Spec.typeBytes cols).length
+        + (cols.flatMap (·.content)).length := by
+  unfold Spec.encodeRecord
+  simp only [List.length_append, spec_put_length]
+
+theorem encodeRecord_bytes (cols : List Spec.Col) (hv : ∀ c ∈ cols, Spec.ValidCol c) :
+    ∀ x ∈ Spec.encodeRecord cols, x < 256 := by
+  intro x hx
+  unfold Spec.encodeRecord at hx
+  rcases List.mem_append.1 hx with h | h
+  · rcases List.mem_append.1 h with h | h
+    · exact spec_put_bytes' _ x h
+    · obtain ⟨c, _, hc⟩ := List.mem_flatMap.1 h
+      exact spec_put_bytes' _ x hc
+  · obtain ⟨c, hc, hx⟩ := List.mem_flatMap.1 h
+    exact (hv c hc).2.2.2 x hx
+
+theorem record_roundtrip (cols : List Spec.Col) (hv : ∀ c ∈ cols, Spec.ValidCol c)
+    (hn : (Spec.typeBytes cols).length + 3 < 2 ^ 21)
+    (pre post : List Nat) (b : Nat)
+    (hb1 : Spec.varintLen (Spec.hdrSize (Spec.typeBytes cols).length) ≤ b)
+    (hb2 : b ≤ (Spec.encodeRecord cols).length) :
+    parseRecord (Buf.ofList (pre ++ (Spec.encodeRecord cols).take b ++ post)) (pre.length : Int)
+        ((Spec.encodeRecord cols).length : Int) (b : Int) (Buf.ofList ((Spec.encodeRecord cols).drop b))
+      = .ok ⟨(Spec.hdrSize (Spec.typeBytes cols).length : Int),
+             Spec.varintLen (Spec.hdrSize (Spec.typeBytes cols).length),
+             cols.map (fun c => (⟨c.st, Spec.varintLen (Spec.toU64 c.st), c.content.length,
+               (Spec.serialGet c.st c.content).getD .null⟩ : RecordCol)), Spec.encodeRecord cols⟩ := by
+  have hH := hdrSize_spec _ hn
+  have hencLen := encodeRecord_length cols
+  have hencDef : Spec.encodeRecord cols = Spec.putVarint (Spec.hdrSize (Spec.typeBytes cols).length)
+      ++ Spec.typeBytes cols ++ cols.flatMap (·.content) := rfl
+  have hencB := encodeRecord_bytes cols hv
+  generalize hencE : Spec.encodeRecord cols = enc at *
+  generalize hHE : Spec.hdrSize (Spec.typeBytes cols).length = H at *
+  have hHlt : H < 2 ^ 21 := by
+    rw [← hHE]; unfold Spec.hdrSize; simp only [Nat.reducePow] at hn ⊢; repeat' split
+    all_goals omega
+  simp only [Nat.reducePow] at hHlt
+  have hPlen : (Spec.putVarint H).length = Spec.varintLen H := spec_put_length H
+  -- the page
+  have htakeLen : (enc.take b).length = b := by rw [List.length_take]; omega
+  have hpageL : (Buf.ofList (pre ++ enc.take b ++ post)).toList = pre ++ enc.take b ++ post :=
+    ofList_toList _
+  have hpageSz : (Buf.ofList (pre ++ enc.take b ++ post)).size = pre.length + b + post.length := by
+    rw [ofList_size]; simp only [List.length_append, htakeLen]
+  -- header-size varint, read from the page
+  have htake : enc.take b = Spec.putVarint H ++ (Spec.typeBytes cols ++ cols.flatMap (·.content)).take
+      (b - (Spec.putVarint H).length) := by
+    rw [hencDef, List.append_assoc, List.take_append, List.take_of_length_le (by omega)]
+  have hdec : decodeVarintI (Buf.ofList (pre ++ enc.take b ++ post)) (pre.length : Int)
+      = .ok ((H : Int), Spec.varintLen H) := by
+    rw [decodeVarintI_nat, decodeVarint_at _ pre
+      ((Spec.typeBytes cols ++ cols.flatMap (·.content)).take (b - (Spec.putVarint H).length) ++ post)
+      H (by omega) (by rw [hpageL, htake]; simp only [List.append_assoc])]
+    have : Spec.toI64 H = (H : Int) := by unfold Spec.toI64; rw [if_pos (by omega)]
+    rw [this]
+  -- total = local bytes + overflow
+  have hcurL : (pySlice (Buf.ofList (pre ++ enc.take b ++ post)) (pre.length : Int)
+      ((pre.length : Int) + (b : Int))).toList = enc.take b := by
+    rw [← Int.natCast_add, pySlice_toList _ _ _ (by omega) (by omega), hpageL, List.append_assoc,
+      List.drop_left, Nat.add_sub_cancel_left, List.take_left' htakeLen]
+  have htotL : ((pySlice (Buf.ofList (pre ++ enc.take b ++ post)) (pre.length : Int)
+      ((pre.length : Int) + (b : Int))).append (Buf.ofList (enc.drop b))).toList = enc := by
+    rw [append_toList, hcurL, ofList_toList, List.take_append_drop]
+  have htotSz : ((pySlice (Buf.ofList (pre ++ enc.take b ++ post)) (pre.length : Int)
+      ((pre.length : Int) + (b : Int))).append (Buf.ofList (enc.drop b))).size = enc.length := by
+    rw [← toList_length, htotL]
+  generalize htotE : (pySlice (Buf.ofList (pre ++ enc.take b ++ post)) (pre.length : Int)
+      ((pre.length : Int) + (b : Int))).append (Buf.ofList (enc.drop b)) = total at htotL htotSz
+  -- the body
+  have hbodyL : (pySlice total (H : Int) (enc.length : Int)).toList = [] ++ cols.flatMap (·.content) := by
+    have e : (Spec.putVarint H ++ Spec.typeBytes cols).length = H := by
+      rw [List.length_append, hPlen]; omega
+    have hd : enc.drop H = cols.flatMap (·.content) := by
+      rw [hencDef, List.drop_left' e]
+    rw [pySlice_toList total H enc.length (by omega) (by omega), htotL, hd, List.nil_append,
+      List.take_of_length_le (by omega)]
+  have hbodyWF : (pySlice total (H : Int) (enc.length : Int)).WF := by
+    apply WF_of_toList
+    rw [hbodyL, List.nil_append]
+    intro x hx
+    exact hencB x (by rw [hencDef]; exact List.mem_append_right _ hx)
+  have hcols := recordCols_spec total H enc.length (cols.flatMap (·.content)) cols
+    (Spec.putVarint H) [] (enc.length + 1) [] hv (by rw [htotL, hencDef])
+    (by rw [hPlen]; omega) hbodyWF hbodyL (by have := typeBytes_length_ge cols; omega)
+  rw [hPlen, List.length_nil, List.reverse_nil, List.nil_append] at hcols
+  have := parseRecord_ok (Buf.ofList (pre ++ enc.take b ++ post)) (Buf.ofList (enc.drop b))
+    pre.length enc.length b (H : Int) (Spec.varintLen H) (cols.map expectedCol) hb2
+    (by rw [ofList_size, List.length_drop]) hdec (by rw [htotE, htotSz]) (by rw [htotE]; exact hcols)
+  rw [this, htotE, htotL]
+  rfl
+
 end SqliteDissect.Proofs.Record
